@@ -28,7 +28,7 @@ func init() {
 }
 
 func ethGenesis(v string) *eth.Header {
-	return polyEthHeader(1000, v, []byte("verif-"+v), [20]byte{1}, 1000000)
+	return polyEthHeader(1000+hOff(v), v, []byte("verif-"+v), [20]byte{1}, 1000000)
 }
 
 func ethSync(fx *routerFx, v string, n int) [][]byte {
@@ -51,7 +51,7 @@ func ethSync(fx *routerFx, v string, n int) [][]byte {
 
 func bscGenesis(v string) *etypes.Header {
 	_, addrs := evmKeys("bsc/"+v, 3)
-	return gethHeader(200, v, posaExtra(addrs), addrs[200%3])
+	return gethHeader(200+2*hOff(v), v, posaExtra(addrs), addrs[(200+2*hOff(v))%3])
 }
 
 func bscSync(fx *routerFx, v string, n int) [][]byte {
@@ -75,7 +75,7 @@ func bscSync(fx *routerFx, v string, n int) [][]byte {
 
 func ontSync(fx *routerFx, v string, n int) [][]byte {
 	accs := detAccounts("ontval/"+v, 4)
-	h := &otypes.Header{Height: uint32(n + 1), Timestamp: uint32(baseTime) + uint32(n+1), ConsensusPayload: []byte("{}")}
+	h := &otypes.Header{Height: uint32(hOff(v)) + uint32(n+1), Timestamp: uint32(baseTime) + uint32(n+1), ConsensusPayload: []byte("{}")}
 	h.Bookkeepers = []keypair.PublicKey{accs[0].PublicKey, accs[1].PublicKey, accs[2].PublicKey}
 	hash := h.Hash()
 	for _, a := range accs[:3] {
@@ -104,7 +104,7 @@ func cosmosSetHash(v string, k int) []byte {
 	return tmtypes.NewValidatorSet([]*tmtypes.Validator{val}).Hash()
 }
 
-func cosmosGenesisHeight(v string) int64 { return int64(100 * vnum(v)) }
+func cosmosGenesisHeight(v string) int64 { return int64(100 + hOff(v)) }
 
 func cosmosSync(fx *routerFx, v string, n int) [][]byte {
 	priv, val := cosmosVal(v, n)
